@@ -114,6 +114,8 @@ pub fn env_password_strategy() -> BoxedStrategy<String> {
         1 => "[ \u{3000}\t][!-~]{1,10}",
         1 => "[!-~]{1,6} ",
         1 => "[!-~]{1,8}\r",
+        // passwords that look like indirections to files which exist where the tool runs, or like other conventions
+        1 => "(@|file:|<|\\$)(p\\.bin|k\\.txt|keys\\.txt|m\\.txt|c\\.ktl|/etc/hostname|/dev/null)",
     ].boxed()
 }
 /// The 64-byte HMAC key block of a password: passwords with equal blocks are the same scrypt/PBKDF2 key (RFC 2104).
